@@ -477,47 +477,81 @@ func ruleR3d(c *Ctx) {
 			if fn == nil || !distributors[fn] {
 				return true
 			}
-			// enclosing ifs whose condition mentions an incremented field
+			// conditions controlling the release: enclosing ifs (release in the then-branch) and
+			// guard clauses (`if cond { return }`) that precede the release in the same function
+			g := p.Graph(f)
+			rpt, okp := g.PointOf(call)
+			if !okp {
+				return true
+			}
+			var conds []ast.Expr
 			for cur := p.Parent(call); cur != nil && cur != ast.Node(f.Body); cur = p.Parent(cur) {
-				ifs, ok := cur.(*ast.IfStmt)
-				if !ok || !(call.Pos() >= ifs.Body.Pos() && call.End() <= ifs.Body.End()) {
-					continue
+				if ifs, ok := cur.(*ast.IfStmt); ok && call.Pos() >= ifs.Body.Pos() && call.End() <= ifs.Body.End() {
+					conds = append(conds, ifs.Cond)
 				}
-				var counters []*types.Var
-				inspectNoLit(ifs.Cond, func(z ast.Node) bool {
-					if e, ok := z.(ast.Expr); ok {
-						if fv := fieldOf(in, e); fv != nil && incremented[fv] {
-							counters = append(counters, fv)
-						}
-					}
+			}
+			inspectNoLit(f.Body, func(z ast.Node) bool {
+				ifs, ok := z.(*ast.IfStmt)
+				if !ok || ifs.End() > call.Pos() || ifs.Else != nil {
 					return true
-				})
-				for _, cv := range counters {
-					reset := false
-					for _, st := range ifs.Body.List {
-						as, ok := st.(*ast.AssignStmt)
+				}
+				returns := false
+				for _, st := range ifs.Body.List {
+					if _, isRet := st.(*ast.ReturnStmt); isRet {
+						returns = true
+					}
+				}
+				if cpt, ok := g.PointOf(ifs.Cond); returns && ok && g.Dominates(cpt, rpt) {
+					conds = append(conds, ifs.Cond)
+				}
+				return true
+			})
+			seenC := map[*types.Var]bool{}
+			for _, cond := range conds {
+				inspectNoLit(cond, func(z ast.Node) bool {
+					e, ok := z.(ast.Expr)
+					if !ok {
+						return true
+					}
+					cv := fieldOf(in, e)
+					if cv == nil || !incremented[cv] || seenC[cv] {
+						return true
+					}
+					seenC[cv] = true
+					cpt, _ := g.PointOf(cond)
+					reset, where := false, ""
+					for _, pt := range g.AllPoints() {
+						as, ok := pt.Node().(*ast.AssignStmt)
 						if !ok || as.Tok != token.ASSIGN {
 							continue
 						}
 						for i, l := range as.Lhs {
-							if fieldOf(in, l) == cv && i < len(as.Rhs) {
-								self := false
-								inspectNoLit(as.Rhs[i], func(z ast.Node) bool {
-									if e, ok := z.(ast.Expr); ok && fieldOf(in, e) == cv {
-										self = true
-									}
-									return true
-								})
-								if !self {
-									reset = true
+							if fieldOf(in, l) != cv || i >= len(as.Rhs) {
+								continue
+							}
+							self := false
+							inspectNoLit(as.Rhs[i], func(y ast.Node) bool {
+								if e2, ok := y.(ast.Expr); ok && fieldOf(in, e2) == cv {
+									self = true
 								}
+								return true
+							})
+							if self || !g.Dominates(cpt, pt) {
+								continue
+							}
+							// before the release on every path to it, or after it on every path to the exit
+							if g.Dominates(pt, rpt) {
+								reset, where = true, "before the release"
+							} else if bad := g.MustPassBeforeExit(rpt, false, func(n ast.Node) bool { return n == pt.Node() }); len(bad) == 0 {
+								reset, where = true, "after the release on every path"
 							}
 						}
 					}
-					c.Check(reset, f, ifs, "release guarded by counter "+cv.Name(),
-						"the counter "+cv.Name()+" that gates the release is re-initialised (top-level assignment) in the releasing branch, so that the next activation counts from scratch",
-						fmt.Sprintf("assignment to %s at top level of the releasing branch: %v", cv.Name(), reset))
-				}
+					c.Check(reset, f, call, "release guarded by counter "+cv.Name(),
+						"the counter "+cv.Name()+" that gates the release is re-initialised on the releasing path (after the gating test, before or after the release), so that the next activation counts from scratch",
+						fmt.Sprintf("non-self assignment to %s on the releasing path: %v %s", cv.Name(), reset, where))
+					return true
+				})
 			}
 			return true
 		})
